@@ -6,6 +6,7 @@ import (
 	"math"
 	"math/rand"
 	"regexp"
+	"sort"
 	"strings"
 
 	"github.com/wolimst/lib-secs2-hsms-go/pkg/ast"
@@ -112,6 +113,10 @@ func producerOracle(m *MsgDesc, steps [][2]string) string {
 			if d := before.diff(after, "item"); d != "" {
 				return "FillVariables changed other fields: " + d
 			}
+		}
+		// the message the producer was called on is untouched
+		if d := before.diff(observe(cur), ""); d != "" {
+			return "producer " + st[0] + " changed the message it was called on: " + d
 		}
 		// the result passes the validity rules of a fresh construction
 		if p2, _ := safely(func() {
@@ -456,6 +461,15 @@ func varsOracle(n *Node, it ast.ItemNode) string {
 		}
 		seen[v] = true
 	}
+	// the list is the caller's: sorting or overwriting it must not disturb the next call
+	scratch := it.Variables()
+	sort.Strings(scratch)
+	for i := range scratch {
+		scratch[i] = "overwritten"
+	}
+	if again := it.Variables(); strings.Join(again, "\x00") != strings.Join(vars, "\x00") {
+		return fmt.Sprintf("Variables() returns %q after the caller sorted/overwrote the previous result %q", again, vars)
+	}
 	printed := fmt.Sprint(it)
 	var got []string
 	for _, t := range printedNames(printed) {
@@ -520,6 +534,27 @@ func suiteC16(c *Ctx) []Suite {
 					cs.Oracle = varsOracle(item, it)
 				} else {
 					cs.Oracle = "factory panicked on an in-domain template"
+				}
+				out = append(out, cs)
+			}
+			return out
+		}},
+		{Name: "vars/duplicate-attempts", Gen: func(c *Ctx) []Case {
+			// names reused on purpose (within a node, between siblings, between nested lists):
+			// either the factory refuses or the tree has no name twice
+			var out []Case
+			for i := 0; i < c.N(2500); i++ {
+				item := genItem(c.R, GenOpt{MaxDepth: 4, MaxSlots: 4, PVar: 0.4, PBad: 0.12, PEllipsis: 0.1})
+				res, it := implItem(item)
+				cs := Case{Op: "item " + item.Proto(), Impl: res, Decisive: true, Nontrivial: !item.Closed(), Tags: []string{"dup-attempt:" + map[bool]string{true: "refused", false: "built"}[it == nil]}}.fields("vars size")
+				if it != nil {
+					seen := map[string]bool{}
+					for _, v := range it.Variables() {
+						if seen[v] {
+							cs.Oracle = "a tree with the variable name " + v + " twice was constructed"
+						}
+						seen[v] = true
+					}
 				}
 				out = append(out, cs)
 			}
